@@ -24,7 +24,8 @@ EXPLANATION = (
     "flow_to_iter returns its argument unchanged only where it was found to have a next method.  "
     "(f) Tree-wide: no flow-processing function applies a non-builtin callable to its flow through map/filter/itertools (C level: a "
     "StopIteration of the callable would end the flow silently).  "
-    "Does not decide the yielded values nor associativity for arbitrary user elements.")
+    "Does not decide the yielded values nor associativity for arbitrary user elements."    " Added after the eighth round of seeded changes and the second round of behaviour-preserving changes: alter_sequence returns the object it was given on every path that has not found an element altering it (never the flattened copy)."
+)
 RULES = {
     "C01-g": "CAPABLE: an object kept as given under isinstance(x, C) and later sent run/fill/compute/request is of a class C that defines that method",
     "C01-a": "FOLD: Sequence.run = wrap(fold(el.run over self._data_seq forwards, wrap(flow))) on every path",
